@@ -14,6 +14,7 @@
   dimension alone (the denotation theorem that `Unit(expr)` is proved to compute, C02.ofExpr_sound).
 -/
 import UnytModel.NumLitC02
+import UnytModel.Generated.C02NumPipeline
 import UnytModel.Convert
 import UnytProofs.Lemmas.C02Num
 import UnytProofs.Lemmas.Denote
@@ -29,6 +30,28 @@ def ExpDigits (l : DecLit) : Prop := ∀ x, l.exp = some x → x.digits ≠ []
 theorem autoNumber_class_of_render (l : DecLit) :
     autoNumberClass l.render = if l.dot || l.exp.isSome then .float else .integer := by
   simp only [autoNumberClass, hasPoint_render, hasExp_render, startsHex_render, Bool.not_false, Bool.and_true]
+
+/-! ### table obligations: the model's decision is the one in the live source -/
+
+/-- the class test regenerated from the live source of the transformation that handles NUMBER
+    tokens (its AST, translated by `tools/extract.d/c02_numpipeline.py`) is, on every token, the
+    test of the model that the theorems of this file are about -/
+theorem autoNumber_test_is_live (cs : List Char) :
+    Generated.c02AutoNumberIsFloat cs = (autoNumberClass cs == .float) := by
+  have hh : startsWithAny [[Char.ofNat 48, Char.ofNat 120], [Char.ofNat 48, Char.ofNat 88]] cs = startsHex cs :=
+    startsWithAny_hex cs
+  have h1 : (Char.ofNat 46) = '.' := by decide
+  have h2 : (Char.ofNat 101) = 'e' := by decide
+  have h3 : (Char.ofNat 69) = 'E' := by decide
+  simp only [Generated.c02AutoNumberIsFloat, hh, h1, h2, h3, autoNumberClass]
+  cases hasChar '.' cs <;> cases hasChar 'e' cs <;> cases hasChar 'E' cs <;> cases startsHex cs <;> decide
+
+/-- unyt hands NUMBER tokens to sympy's `auto_number` and then `rationalize`: the class test
+    decides between `Rational('<tok>')` and `Integer(<tok>)` -/
+theorem number_pipeline_is_modelled :
+    Generated.c02Transforms = ["unyt._parsing._auto_positive_symbol", "sympy.parsing.sympy_parser.auto_number",
+      "sympy.parsing.sympy_parser.rationalize"] ∧
+    Generated.c02FloatCtor = "Rational" ∧ Generated.c02IntCtor = "Integer" := by decide
 
 /-- so `Integer(<tok>)`, which Python evaluates before sympy sees it, is only ever handed
     literals without point and without exponent part -/
